@@ -66,7 +66,7 @@ def load(cfg='Q0', use_cache=True):
             return pickle.load(fh)
     vm = F.CONFIGS[cfg]['vm']
     units = [u for u in F.unit_list(cfg) if not (u.endswith('_machine.cpp') and not u.startswith(vm))]
-    tmp = os.path.join(cdir, 'bc')
+    tmp = os.path.join(cdir, 'bc.%d' % os.getpid())       # private to this process: checks may run concurrently
     os.makedirs(tmp, exist_ok=True)
     with ThreadPoolExecutor(max_workers=16) as ex:
         res = list(ex.map(_compile, [(u, cfg, tmp) for u in units]))
@@ -89,6 +89,7 @@ def load(cfg='Q0', use_cache=True):
         doc = json.load(fh)
     subprocess.run(['rm', '-rf', tmp])
     ir = IR(doc, cfg)
-    with open(pk, 'wb') as fh:
+    with open(pk + '.%d' % os.getpid(), 'wb') as fh:
         pickle.dump(ir, fh, protocol=pickle.HIGHEST_PROTOCOL)
+    os.replace(pk + '.%d' % os.getpid(), pk)                # atomic: a concurrent reader sees the old state or the whole file
     return ir
